@@ -14,7 +14,7 @@ Qed.
    fetch had already handed to streaming_callback *)
 Definition rproj (keep : bool) (r : result) : result :=
   match r with
-  | Res (OErr k) e st => Res (OErr k) e (if keep then st else [])
+  | Res (OErr k) e st sn => Res (OErr k) e (if keep then st else []) sn
   | other => other
   end.
 
@@ -29,7 +29,7 @@ Section Sim.
 
   Definition dproj (r : @dres G) : @dres G :=
     match r with
-    | DBad d => if keep then DBad d else DBad (DS [] [] false (d_gz d) 0%N false)
+    | DBad d => if keep then DBad d else DBad (DS [] [] false (d_gz d) 0%N false (d_sent d))
     | other => other
     end.
 
@@ -65,6 +65,7 @@ Section Sim.
      state it is left in when it fails, if [keep = false]) *)
   Context (Inv : dstateG -> Prop).
   Hypothesis H_inv : forall d h0, Inv d -> Inv (fst (headers_received gnew c d h0)).
+  Hypothesis H_sent : forall d, Inv d -> Inv (set_sent d).
   Hypothesis H_dl : forall (d : dstateG) cs cs', Inv d ->
       concat cs = concat cs' -> dproj (deliverG d cs) = dproj (deliverG d cs').
 
@@ -113,7 +114,7 @@ Section Sim.
       simpl in HD; try discriminate; try (destruct keep; discriminate); auto.
     - inversion HD; subst d2.
       destruct b1, b2; simpl in HB; try contradiction; reflexivity.
-    - simpl. destruct keep; [inversion HD; reflexivity|reflexivity].
+    - simpl. destruct keep; [inversion HD; reflexivity|]. inversion HD as [[E1 E2]]. rewrite E2. reflexivity.
   Qed.
 
   Lemma read_body_sim s1 s2 d code reason h : Inv d -> R s1 s2 ->
@@ -152,8 +153,10 @@ Section Sim.
     pose proof (H_inv d h0 HI) as HI1.
     destruct (headers_received gnew c d h0) as [d1 h]. cbn [fst] in HI1.
     destruct (is_1xx code).
-    - destruct (hmem h K_CL || hmem h K_TE); [reflexivity|].
-      apply IH; assumption.
+    - destruct (expect100 c && (code =? 100)%N && d_sent d1); [reflexivity|].
+      destruct (hmem h K_CL || hmem h K_TE); [reflexivity|].
+      apply IH; [|assumption].
+      destruct (expect100 c && (code =? 100)%N); [apply H_sent|]; assumption.
     - destruct (is_head c || (code =? 304)%N); [reflexivity|].
       apply read_body_sim; assumption.
   Qed.
@@ -174,6 +177,7 @@ Theorem seg_refines_whole {G : Type} (inflate : G -> bytes -> nat -> option (G *
         (gflush : G -> G * bool * bool) (gnew : G -> G) (c : cfg) (keep : bool)
         (Inv : @dstate G -> Prop)
   (Hinv : forall d h0, Inv d -> Inv (fst (headers_received gnew c d h0)))
+  (Hsent : forall d, Inv d -> Inv (set_sent d))
   (Hdl : forall (d : @dstate G) cs cs', Inv d -> concat cs = concat cs' ->
          dproj keep (deliver inflate c d cs) = dproj keep (deliver inflate c d cs')) :
   forall g0 (s : sstream), Inv (d0 g0) ->
@@ -190,6 +194,7 @@ Proof.
   - intros [buf segs] b <-. reflexivity.
   - intros [buf segs] b <-. reflexivity.
   - exact Hinv.
+  - exact Hsent.
   - exact Hdl.
   - exact HI.
   - reflexivity.
